@@ -8,7 +8,7 @@ use rsdd::builder::bdd::RobddBuilder;
 use rsdd::builder::cache::AllIteTable;
 use rsdd::constants::primes;
 use rsdd::repr::{create_semantic_hash_map, BddPtr, DDNNFPtr, VarLabel, WmcParams};
-use rsdd::util::semirings::{Complex, FiniteField, Polynomial, RealSemiring, Semiring};
+use rsdd::util::semirings::{Complex, ExpectedUtility, FiniteField, Polynomial, RealSemiring, Semiring};
 use std::collections::HashMap;
 
 fn ff_params<const P: u128>(w: &[(u128, u128)]) -> WmcParams<FiniteField<P>> {
@@ -83,6 +83,11 @@ pub fn wmc_lines(rng: &mut Rng, maxvars: usize, maxops: usize) -> Vec<String> {
     // complex weights in quarters, low + high = 1 + 0i; about half of the variables purely real
     let wc: Vec<(i64, i64)> = (0..n).map(|_| (rng.below(9) as i64 - 2, if rng.coin() { 0 } else { rng.below(7) as i64 - 3 })).collect();
 
+    // expected-utility weights, normalised: low = (1 - k/8, -u), high = (k/8, u); k = 0 and k = 8
+    // (probability exactly 0 or 1 with a non-zero utility) occur on purpose
+    let weu: Vec<(u64, i64)> = (0..n)
+        .map(|_| (if rng.chance(1, 3) { [0u64, 8][rng.below(2) as usize] } else { rng.below(9) }, rng.below(7) as i64 - 3))
+        .collect();
     // polynomial weights (1 - x^d, x^d): degrees are distinct powers of two on the first five
     // variables (products reach every degree up to 31 = MAX_COEFFS - 1) and small otherwise
     let wpd: Vec<usize> = {
@@ -112,7 +117,7 @@ pub fn wmc_lines(rng: &mut Rng, maxvars: usize, maxops: usize) -> Vec<String> {
     for &i in picks.iter() {
         let d = pool[i];
         let head = format!(
-            "wmc n={} order={} d={} P={} wn={} wa={} wr={} wc={} wpd={}",
+            "wmc n={} order={} d={} P={} wn={} wa={} wr={} wc={} wpd={} weu={}",
             n,
             csv(&prog.order),
             bdd_raw_string(d),
@@ -121,7 +126,8 @@ pub fn wmc_lines(rng: &mut Rng, maxvars: usize, maxops: usize) -> Vec<String> {
             pairs(&wa),
             csv(&wr),
             wc.iter().map(|(a, b)| format!("{}:{}", a, b)).collect::<Vec<_>>().join(","),
-            csv(&wpd)
+            csv(&wpd),
+            weu.iter().map(|(k, u)| format!("{}:{}", k, u)).collect::<Vec<_>>().join(",")
         );
         let r = guarded(|| {
             let tt: String = (0..(1usize << n))
@@ -196,15 +202,23 @@ pub fn wmc_lines(rng: &mut Rng, maxvars: usize, maxops: usize) -> Vec<String> {
             };
             let cp = pstr(d.unsmoothed_wmc(&pparams));
             let cpn = pstr(d.neg().unsmoothed_wmc(&pparams));
+            let mut eum = HashMap::new();
+            for (x, (k, u)) in weu.iter().enumerate() {
+                let (p, u) = (*k as f64 / 8.0, *u as f64);
+                eum.insert(VarLabel::new_usize(x), (ExpectedUtility(1.0 - p, -u), ExpectedUtility(p, u)));
+            }
+            let eup = WmcParams::new(eum);
+            let ce = d.unsmoothed_wmc(&eup);
+            let cen = d.neg().unsmoothed_wmc(&eup);
             let cxp = WmcParams::new(cm);
             let cx = d.unsmoothed_wmc(&cxp);
             let cxn = d.neg().unsmoothed_wmc(&cxp);
             let (sh, shw) = by_prime!(pi, sem_hash, d, n);
             let (shn, _) = by_prime!(pi, sem_hash, d.neg(), n);
             format!(
-                "tt={} cn={} ca={} sm={} sa={} mc={} cr={} aw={}:{} cx={},{} cxn={},{} cp={} cpn={} nodes={} sh={} shn={} shw={} smk={}",
+                "tt={} cn={} ca={} sm={} sa={} mc={} cr={} aw={}:{} cx={},{} cxn={},{} ce={},{} cen={},{} cp={} cpn={} nodes={} sh={} shn={} shw={} smk={}",
                 tt, cn, ca, bdd_raw_string(sm), sa, mc, f64_exact(cr), abits, f64_exact(aw), f64_exact(cx.re), f64_exact(cx.im),
-                f64_exact(cxn.re), f64_exact(cxn.im), cp, cpn, d.count_nodes(), sh, shn, pairs(&shw), smk.join(";")
+                f64_exact(cxn.re), f64_exact(cxn.im), f64_exact(ce.0), f64_exact(ce.1), f64_exact(cen.0), f64_exact(cen.1), cp, cpn, d.count_nodes(), sh, shn, pairs(&shw), smk.join(";")
             )
         });
         out.push(format!("{} => {}", head, r.unwrap_or_else(|e| e)));
